@@ -102,6 +102,33 @@ def check_stack(rec, cands, xfs, nc, rng, n_random=200, flavour=('list', 'int'))
     stats = {'margin': -np.inf, 'lo_minus_up': -np.inf, 'n_cand': 0, 'degenerate': False}
     api = rec.get('api', 'boot')
     fn = 'boot_noise_ceiling' if api == 'boot' else 'cv_noise_ceiling'
+    orig = val.copy()
+    desc0 = (list(rd.rdm_descriptors['subj']), list(rd.pattern_descriptors['cond']))
+
+    def untouched(where, meth_):
+        # computing a ceiling leaves the data object alone (values, NaN positions, descriptors)
+        same = np.array_equal(rd.get_vectors(), orig, equal_nan=True) and \
+            desc0 == (list(rd.rdm_descriptors['subj']), list(rd.pattern_descriptors['cond']))
+        if not same:
+            out.append((f'C07/frame/{where}/{meth_}/data-modified', 'computing a noise ceiling / pooled RDM altered the data RDMs it was given',
+                        _case(rec, after=np.asarray(rd.get_vectors()).tolist())))
+        return same
+    # ---- session: ceilings with other methods computed on the SAME object before this one
+    prev = rec.get('prev', [])
+    for mp in prev:
+        try:
+            if api == 'boot':
+                boot_noise_ceiling(rd, method=mp, rdm_descriptor=by)
+            else:
+                from rsatoolbox.inference.noise_ceiling import cv_noise_ceiling as _cv
+                _, ts_, cs_ = CVS.call_generator(rec['case'], rd, flavour)
+                _cv(rd, cs_, ts_, method=mp, pattern_descriptor=(rec['case']['byP'] or 'index'))
+            untouched(fn, mp)
+            pool_rdm(rd, method=mp)
+            untouched('pool_rdm', mp)
+        except Exception as ex:
+            out.append((f'C07/raises/{fn}/{mp}/{type(ex).__name__}', f'{type(ex).__name__}: {ex}', _case(rec)))
+            return out, 1, stats
     try:
         if api == 'boot':
             lo, up = boot_noise_ceiling(rd, method=m, rdm_descriptor=by)
@@ -110,7 +137,21 @@ def check_stack(rec, cands, xfs, nc, rng, n_random=200, flavour=('list', 'int'))
             _, test_set, ceil_set = CVS.call_generator(rec['case'], rd, flavour)
             with Tap() as tap:
                 lo, up = cv_noise_ceiling(rd, ceil_set, test_set, method=m, pattern_descriptor=(rec['case']['byP'] or 'index'))
+        untouched(fn, m)
         pooled = pool_rdm(rd, method=m)
+        untouched('pool_rdm', m)
+        if prev:
+            # both bounds are a function of the data and the method only
+            rd_f = make_rdms(orig.copy(), nc, flavour)
+            if api == 'boot':
+                lo_f, up_f = boot_noise_ceiling(rd_f, method=m, rdm_descriptor=by)
+            else:
+                _, ts_, cs_ = CVS.call_generator(rec['case'], rd_f, flavour)
+                lo_f, up_f = cv_noise_ceiling(rd_f, cs_, ts_, method=m, pattern_descriptor=(rec['case']['byP'] or 'index'))
+            if not (np.array_equal([lo, up], [lo_f, up_f], equal_nan=True)):
+                out.append((f'C07/frame/{fn}/bounds-depend-on-history/{prev[-1]}-then-{m}',
+                            'the bounds differ from those of the same data computed first',
+                            _case(rec, prev=prev, bounds=[float(lo), float(up)], fresh=[float(lo_f), float(up_f)])))
     except S.DrawMismatch as ex:
         from harness.core import MachineryError
         raise MachineryError(f'shuffle mismatch: {ex}')
@@ -477,6 +518,35 @@ def check_proto(rec, const, flavour, method, seed):
     n_eval += 1
     if out:
         return out, n_eval, 0
+    # ---------------- the values: pool / compare applied to the objects the SPECIFICATION assigns to every fold
+    # (lower: training RDMs at the test conditions; upper: all data RDMs [cv: at the test conditions])
+    from rsatoolbox.util.inference_util import pool_rdm as _pool
+    from rsatoolbox.rdm import compare as _cmp
+
+    def ob(abs_):
+        return CVS.make_from_abs(abs_, flavour, values=base)
+    los, ups = [], []
+    for F in folds:
+        te = ob(F['test'])
+        los.append(float(np.mean(_cmp(_pool(ob(F['ceil']), method=method), te, method))))
+        if api == 'boot':
+            allob = ob(a)
+        else:
+            pats = F['test']['pats']
+            npat = len(pats)
+            allob = ob({'rows': a['rows'], 'pats': pats, 'ridx': a['ridx'], 'pidx': F['test']['pidx'], 'pinv': [], 'meas': 1,
+                        'pcat': 1, 'vec': [[S.NAN if pats[p_] == pats[q_] else S.tok(r, pats[p_], pats[q_], set())
+                                            for p_ in range(npat) for q_ in range(p_ + 1, npat)] for r in a['rows']]})
+        ups.append(float(np.mean(_cmp(_pool(allob, method=method), te, method))))
+    if np.all(np.isfinite(los + ups)):
+        if abs(np.mean(los) - lo) > 1e-12:
+            out.append((f'C07/b/{api}/lower-value', 'lower bound is not the average similarity of Pool(training RDMs at the test conditions) to the test RDMs',
+                        dict(case, lower=lo, spec=float(np.mean(los)))))
+        if abs(np.mean(ups) - up) > 1e-12:
+            out.append((f'C07/a/{api}/upper-value', 'upper bound is not the average similarity of Pool(all data RDMs at the test conditions) to the test RDMs',
+                        dict(case, upper=up, spec=float(np.mean(ups)))))
+    if out:
+        return out, n_eval, 0
 
     def preds(vals):
         _, _, its_ = run(vals)
@@ -606,11 +676,6 @@ def record_trace(seed, const, kind):
         hdr['folds'] = fl
         hdr['splits'] = splits
         hdr['ordered'] = False
-        with Tap() as tap:
-            lo, up = cv_noise_ceiling(src, ceil, test, method=meth, pattern_descriptor=byP)
-    else:
-        with Tap() as tap:
-            lo, up = boot_noise_ceiling(src, method=meth, rdm_descriptor=by)
     col = {'index': a['ridx'], 'subj': rows, 'grp': [S.grp(r) for r in rows]}[by]
     if hdr['api'] == 'boot':
         hdr['single'] = bool(len(set(col)) == len(col) and len(col) > 1)
@@ -619,35 +684,62 @@ def record_trace(seed, const, kind):
         hdr['single'] = bool(hdr['splits'] and all(len(f['test']) == 1 and len(f['ceil']) == len(rows) - 1 for f in hdr['folds']))
         hdr['ordered'] = hdr['single']
     hdr['exact'] = bool(kind == 'boot-val' and hdr['single'])
-    items = assemble(tap, tokens_of)
-    if len(items) % 2 or any(not it['opts'] for it in items):
-        return {'hdr': hdr, 'ev': [], 'error': 'prediction-not-from-pool_rdm'}
-    if any(len(it['opts']) > 1 for it in items):
-        return {'hdr': hdr, 'ev': [], 'skip': 'ambiguous'}     # two different pools returned identical RDMs
-    for it in items:
-        it['deps'] = next(iter(it['opts']))
-    all_tok = tokens_of(snap(src))
+    # a session: several ceilings, one after the other, on the SAME data object (and the same handed-out sets)
+    if kind == 'boot-val':
+        ms = [meth] + [methods[int(x)] for x in rng.integers(0, 5, size=int(rng.integers(1, 3)))]
+    else:
+        ms = [meth, 'cosine' if meth == 'cosine_cov' else 'cosine_cov']
+
+    def fingerprint():
+        import zlib
+        obs = [src] + ([t[0] for t in test] + [c[0] for c in ceil] if kind == 'cv-tok' else [])
+        h = 0
+        for ob in obs:
+            h = zlib.crc32(np.ascontiguousarray(ob.get_vectors(), dtype=float).tobytes(), h)
+        return int(h % (2 ** 31 - 1))
+    hdr['fp'] = fingerprint()
     ev = []
-    # pair the compare calls per fold: the code scores lower and upper for the same test data in turn
-    for k in range(0, len(items), 2):
-        p, q = items[k], items[k + 1]
-        if p['test'] != q['test']:
-            return {'hdr': hdr, 'ev': [], 'error': 'compare-calls-not-paired'}
-        if p['deps'] > q['deps']:          # the upper prediction pools a superset of the lower one's entries
-            p, q = q, p
-        ev.append({'op': 'fold', 'predDeps': sorted(p['deps']), 'upDeps': sorted(q['deps']),
-                   'predPats': p['a']['conds'], 'upPats': q['a']['conds'], 'testPats': p['b']['conds'],
-                   'testRows': p['b']['subj'], 'lo8': int(round(float(np.mean(p['out'])) * K8)),
-                   'up8': int(round(float(np.mean(q['out'])) * K8))})
-    ev.append({'op': 'ret', 'lo8': int(round(lo * K8)), 'up8': int(round(up * K8)),
-               'lo6': int(round(lo * K6)), 'up6': int(round(up * K6))})
-    if hdr['single'] and meth in OPT and hdr['api'] == 'boot':
-        # candidates scored by the implementation
-        vec = src.get_vectors()
-        C = np.vstack([vec, rng.uniform(0, 10, size=(12, vec.shape[1])),
-                       rng.integers(0, 4, size=(12, vec.shape[1])).astype(float)])
-        C[:, np.isnan(vec[0])] = np.nan
-        sc = compare(RDMs(C), src, method=meth).mean(axis=1)
-        for s in sc:
-            ev.append({'op': 'cand', 's8': int(round(float(s) * K8))})
+    for ci, m_ in enumerate(ms):
+        if ci > 0:
+            ev.append({'op': 'call', 'meth': m_})
+        with Tap() as tap:
+            if kind == 'cv-tok':
+                lo, up = cv_noise_ceiling(src, ceil, test, method=m_, pattern_descriptor=hdr['byP'])
+            else:
+                lo, up = boot_noise_ceiling(src, method=m_, rdm_descriptor=by)
+        fp = fingerprint()
+        items = assemble(tap, tokens_of)
+        if len(items) % 2 or any(not it['opts'] for it in items):
+            if fp != hdr['fp']:
+                return {'hdr': hdr, 'ev': [], 'error': 'data-modified'}
+            return {'hdr': hdr, 'ev': [], 'error': 'prediction-not-from-pool_rdm'}
+        if any(len(it['opts']) > 1 for it in items):
+            return {'hdr': hdr, 'ev': [], 'skip': 'ambiguous'}     # two different pools returned identical RDMs
+        for it in items:
+            it['deps'] = next(iter(it['opts']))
+        # pair the compare calls per fold: the code scores lower and upper for the same test data in turn
+        for k in range(0, len(items), 2):
+            p, q = items[k], items[k + 1]
+            if p['test'] != q['test']:
+                return {'hdr': hdr, 'ev': [], 'error': 'compare-calls-not-paired'}
+            if p['deps'] > q['deps']:          # the upper prediction pools a superset of the lower one's entries
+                p, q = q, p
+            ev.append({'op': 'fold', 'predDeps': sorted(p['deps']), 'upDeps': sorted(q['deps']),
+                       'predPats': p['a']['conds'], 'upPats': q['a']['conds'], 'testPats': p['b']['conds'],
+                       'testRows': p['b']['subj'], 'lo8': int(round(float(np.mean(p['out'])) * K8)),
+                       'up8': int(round(float(np.mean(q['out'])) * K8))})
+        if not (np.isfinite(lo) and np.isfinite(up)):
+            return {'hdr': hdr, 'ev': [], 'error': 'data-modified' if fp != hdr['fp'] else 'non-finite-bounds'}
+        ev.append({'op': 'ret', 'lo8': int(round(lo * K8)), 'up8': int(round(up * K8)),
+                   'lo6': int(round(lo * K6)), 'up6': int(round(up * K6)), 'fp': fp})
+        if hdr['single'] and m_ in OPT and hdr['api'] == 'boot':
+            # candidates scored by the implementation (on an untouched copy of the data)
+            ref = CVS.make_from_abs(a, flavour, values=values)
+            vec = ref.get_vectors()
+            C = np.vstack([vec, rng.uniform(0, 10, size=(12, vec.shape[1])),
+                           rng.integers(0, 4, size=(12, vec.shape[1])).astype(float)])
+            C[:, np.isnan(vec[0])] = np.nan
+            sc = compare(RDMs(C), ref, method=m_).mean(axis=1)
+            for s_ in sc:
+                ev.append({'op': 'cand', 's8': int(round(float(s_) * K8))})
     return {'hdr': hdr, 'ev': ev}
